@@ -4,7 +4,7 @@ writes seeded/<dir>/meta.json from the verification log /tmp/vs_<ID>.out"""
 import sys, json, re, os
 ID, d, needs, det = sys.argv[1:5]
 extra = json.loads(sys.argv[5]) if len(sys.argv) > 5 else {}
-log = open('/tmp/vs_%s.out' % ID).read() if os.path.exists('/tmp/vs_%s.out' % ID) else ''
+log = open('/tmp/vs_%s.out' % d).read() if os.path.exists('/tmp/vs_%s.out' % d) else ''
 m = re.search(r'RESULT .*', log)
 meta = {
   "property": ID,
